@@ -54,6 +54,7 @@ OK_PRESERVING = {
     "core::ops::try_trait::Try::branch",
 }
 
+FROM_RESIDUAL = "core::ops::try_trait::FromResidual::from_residual"
 OK_VARIANTS = {"Ok", "Some", "Continue", "Ready"}
 ERR_VARIANTS = {"Err", "Break"}
 
@@ -85,6 +86,8 @@ class Prov:
             if not is_unit_ty(body.locals[l]["ty"]):
                 self.phi_locals.add(l)
         self.memo = {}
+        self._sum_memo = {}
+        self._sum_busy = set()
 
     # ------------------------------------------------------------------ defs
     def _live_blocks(self):
@@ -133,9 +136,65 @@ class Prov:
         return b["term"] if i == "T" else b["stmts"][i]
 
     # ------------------------------------------------------------------ terms
+    def sum_summary(self, l):
+        """A multi-def local whose every definition builds a literal Option/Result/Poll value (the shape a desugared
+        combinator or a spliced multi-return helper leaves): ((variant, payload term), ...) for the variants whose
+        payload is the same at every definition; None when some definition is not such a literal."""
+        if l in self._sum_memo:
+            return self._sum_memo[l]
+        if l in self._sum_busy or (1 <= l <= self.body.arg_count) or l in self.partial or l in self.mutborrow:
+            return None
+        self._sum_busy.add(l)
+        try:
+            per = {}
+            okay = True
+            for site in self.defsites.get(l, []):
+                node = self.node_at(site)
+                if site[1] == "T" and node["k"] == "call" and node["callee"].get("def") == FROM_RESIDUAL \
+                        and self.body.locals[l]["ty"].startswith("core::result::Result<"):
+                    per.setdefault("Err", set()).add(self.def_term(site))      # `?`: an Err built from the residual
+                    continue
+                if site[1] != "T" and node["rv"]["k"] == "use" and node["rv"]["op"]["k"] in ("copy", "move") \
+                        and not node["rv"]["op"]["p"]["proj"]:
+                    # a copy of another local of the same shape (the value of an `if let .. else ..` expression)
+                    src = node["rv"]["op"]["p"]["l"]
+                    sub = self.sum_summary(src) if src in self.phi_locals else None
+                    if sub is None and src not in self.phi_locals and len(self.defsites.get(src, [])) == 1:
+                        n2 = self.node_at(self.defsites[src][0])
+                        if self.defsites[src][0][1] != "T" and n2["rv"]["k"] == "aggregate" and n2["rv"].get("ak") == "adt" \
+                                and n2["rv"].get("adt") in STD_SUM_TYPES:
+                            sub = ((n2["rv"]["variant"], self.operand_term(n2["rv"]["ops"][0]) if n2["rv"]["ops"] else ("unit",)),)
+                    if sub is None:
+                        okay = False
+                        break
+                    for v, pl in sub:
+                        if v.startswith("?"):
+                            per.setdefault(v[1:], set()).update([("ambiguous", 0), ("ambiguous", 1)])
+                        else:
+                            per.setdefault(v, set()).add(pl)
+                    continue
+                if site[1] == "T" or node["rv"]["k"] != "aggregate" or node["rv"].get("ak") != "adt" \
+                        or node["rv"].get("adt") not in STD_SUM_TYPES:
+                    okay = False
+                    break
+                rv = node["rv"]
+                pl = self.operand_term(rv["ops"][0]) if rv["ops"] else ("unit",)
+                per.setdefault(rv["variant"], set()).add(pl)
+            res = None
+            if okay and per:
+                res = tuple(sorted((v, next(iter(ps))) for v, ps in per.items() if len(ps) == 1))
+                res = res + tuple(("?" + v, ("unit",)) for v, ps in sorted(per.items()) if len(ps) != 1)
+        finally:
+            self._sum_busy.discard(l)
+        self._sum_memo[l] = res
+        return res
+
     def local_term(self, l):
         body = self.body
         if l in self.phi_locals:
+            sm = self.sum_summary(l)
+            if sm:
+                return ("phi", l, body.name_of(l) or "_%d" % l, sm)
             return ("phi", l, body.name_of(l) or "_%d" % l)
         if 1 <= l <= body.arg_count:
             return ("param", l, body.name_of(l) or "_%d" % l)
@@ -344,8 +403,17 @@ def mk_field(t, name):
         if t[2] in OK_VARIANTS:
             return mk_ok(t[1])
         if t[2] in ERR_VARIANTS:
-            return ("err", strip_branch(t[1]))
+            return mk_err(t[1])
     return ("field", t, name)
+
+
+def phi_payload(t, variants):
+    """Payload of the given variant family of a sum-structured multi-def local (see Prov.sum_summary)."""
+    if t[0] == "phi" and len(t) == 4:
+        hits = [pl for v, pl in t[3] if v in variants]
+        if len(hits) == 1 and not any(v.startswith("?") and v[1:] in variants for v, _ in t[3]):
+            return hits[0]
+    return None
 
 
 STD_SUM_TYPES = {"core::option::Option", "core::result::Result", "core::ops::control_flow::ControlFlow", "core::task::poll::Poll"}
@@ -373,8 +441,22 @@ def strip_ok_preserving(t):
     return t
 
 
+def mk_err(t):
+    """err(Err(e)) == e for literal aggregates and sum-structured locals."""
+    t = strip_branch(t)
+    pl = phi_payload(t, ERR_VARIANTS)
+    if pl is not None:
+        return pl
+    if t[0] == "agg" and isinstance(t[1], tuple) and t[1][0] == "adt" and t[1][2] in ERR_VARIANTS and len(t[2]) == 1:
+        return t[2][0][1]
+    return ("err", t)
+
+
 def mk_ok(t):
     t = strip_ok_preserving(t)
+    pl = phi_payload(t, OK_VARIANTS)
+    if pl is not None:
+        return pl
     # ok(Ok(x)) == x for literal aggregates
     if t[0] == "agg" and isinstance(t[1], tuple) and t[1][0] == "adt" and t[1][2] in OK_VARIANTS and len(t[2]) == 1:
         return t[2][0][1]
@@ -409,6 +491,19 @@ def walk(t):
             st.append(x[1])
         elif h == "index":
             st.append(x[1]); st.append(x[2])
+
+
+def walk_deep(t):
+    """walk() that also descends into the per-variant payloads of sum-structured multi-def locals."""
+    seen = set()
+    st = [t]
+    while st:
+        x = st.pop()
+        for y in walk(x):
+            yield y
+            if y[0] == "phi" and len(y) == 4 and y[1] not in seen:
+                seen.add(y[1])
+                st.extend(pl for _, pl in y[3])
 
 
 def call_sites(t):
